@@ -425,23 +425,42 @@ Definition kw_table : list (bytes * bytes) :=
     (bs "SMTPUTF8", bs "SMTPUTF8"); (bs "RET", bs "DSN"); (bs "ENVID", bs "DSN");
     (bs "NOTIFY", bs "DSN"); (bs "ORCPT", bs "DSN"); (bs "AUTH", bs "AUTH"); (bs "RRVS", bs "RRVS") ].
 
-(* [p] is "KEYWORD" or "KEYWORD=value", KEYWORD in the table, its extension
-   key in [ext], and no CR / LF / SP anywhere in it *)
+Fixpoint kw_key (kw : bytes) (t : list (bytes * bytes)) : option bytes :=
+  match t with
+  | [] => None
+  | (k, e) :: r => if bytes_eqb k kw then Some e else kw_key kw r
+  end.
+
+(* the extension key that licenses the parameter kw (a flag: v = []) or kw=v:
+   the table's, except that BODY=BINARYMIME needs BINARYMIME *)
+Definition ext_for (kw v : bytes) : option bytes :=
+  if bytes_eqb kw (bs "BODY") && bytes_eqb v (bs "BINARYMIME") then Some (bs "BINARYMIME")
+  else kw_key kw kw_table.
+
+(* [p] is "KEYWORD" or "KEYWORD=value", KEYWORD in the table, the extension
+   key that licenses it in [ext], and no CR / LF / SP anywhere in it *)
 Definition param_ok (ext : option extmap) (p : bytes) : Prop :=
   clean_sp p /\
-  exists kw k v, In (kw, k) kw_table /\ has_ext ext k = true /\
-                 (p = kw \/ p = kw ++ "=" :: v).
+  exists kw k v, ext_for kw v = Some k /\ has_ext ext k = true /\
+                 ((p = kw /\ v = []) \/ p = kw ++ "=" :: v).
 
 Lemma param_ok_intro ext kw k v :
-  In (kw, k) kw_table -> has_ext ext k = true -> clean_sp (kw ++ "=" :: v) ->
+  ext_for kw v = Some k -> has_ext ext k = true -> clean_sp (kw ++ "=" :: v) ->
   param_ok ext (kw ++ "=" :: v).
 Proof. intros I H C. split; [exact C|]. exists kw, k, v. tauto. Qed.
 
 Lemma param_ok_flag ext kw k :
-  In (kw, k) kw_table -> has_ext ext k = true -> clean_sp kw -> param_ok ext kw.
+  ext_for kw [] = Some k -> has_ext ext k = true -> clean_sp kw -> param_ok ext kw.
 Proof. intros I H C. split; [exact C|]. exists kw, k, []. tauto. Qed.
 
-Ltac in_table := cbn [kw_table In]; tauto.
+(* ext_for (bs "KW") v = Some (bs "KEY"), v possibly open (KW is not BODY then) *)
+Ltac in_table :=
+  unfold ext_for;
+  match goal with
+  | |- context [bytes_eqb (bs ?a) (bs "BODY")] =>
+      let b := eval vm_compute in (bytes_eqb (bs a) (bs "BODY")) in
+      change (bytes_eqb (bs a) (bs "BODY")) with b
+  end; cbn [andb]; reflexivity.
 
 Lemma clean_sp_cons_eq kw v :
   clean_sp kw -> clean_sp v -> clean_sp (kw ++ "=" :: v).
@@ -525,15 +544,39 @@ Qed.
 
 (* every parameter Mail renders is one clean token whose keyword the server
    offered in the EHLO reply [ext] *)
-Lemma mail_params_ok ext opts ps :
-  mail_params ext opts = inl ps -> Forall (param_ok ext) ps.
+Lemma mail_body_param_ok ext opts p1 :
+  mail_body_param ext opts = inl p1 -> Forall (param_ok ext) p1.
 Proof.
-  unfold mail_params.
+  unfold mail_body_param.
   assert (P1 : Forall (param_ok ext) (if has_ext ext (key "8BITMIME") then [bs "BODY=8BITMIME"] else [])).
   { destruct (has_ext ext (key "8BITMIME")) eqn:E; [|constructor]. constructor; [|constructor].
     change (bs "BODY=8BITMIME") with (bs "BODY" ++ "=" :: bs "8BITMIME").
     apply (param_ok_intro ext (bs "BODY") (bs "8BITMIME")); [in_table|exact E|clean_sp_const]. }
-  set (p1 := if has_ext ext (key "8BITMIME") then [bs "BODY=8BITMIME"] else []) in *. clearbody p1.
+  destruct opts as [o|]; [|intros H; injection H as <-; exact P1].
+  destruct (mo_body o) as [|b0 bt] eqn:Eb; [intros H; injection H as <-; exact P1|].
+  destruct (bytes_eqb (b0 :: bt) (bs "7BIT") || bytes_eqb (b0 :: bt) (bs "8BITMIME")) eqn:E8.
+  - destruct (has_ext ext (key "8BITMIME")) eqn:E; [|discriminate].
+    intros H. injection H as <-. constructor; [|constructor].
+    change (bs "BODY=" ++ b0 :: bt) with (bs "BODY" ++ "=" :: b0 :: bt).
+    apply orb_true_iff in E8 as [E8|E8]; apply bytes_eqb_eq in E8; rewrite E8;
+      (apply (param_ok_intro ext (bs "BODY") (bs "8BITMIME")); [reflexivity|exact E|clean_sp_const]).
+  - destruct (bytes_eqb (b0 :: bt) (bs "BINARYMIME")) eqn:Eb2; [|discriminate].
+    destruct (has_ext ext (key "BINARYMIME")) eqn:E; [|discriminate].
+    intros H. injection H as <-. constructor; [|constructor].
+    change (bs "BODY=" ++ b0 :: bt) with (bs "BODY" ++ "=" :: b0 :: bt).
+    apply bytes_eqb_eq in Eb2. rewrite Eb2.
+    apply (param_ok_intro ext (bs "BODY") (bs "BINARYMIME")); [reflexivity|exact E|clean_sp_const].
+Qed.
+
+(* every parameter Mail renders is one clean token whose keyword the server
+   offered in the EHLO reply [ext] *)
+Lemma mail_params_ok ext opts ps :
+  mail_params ext opts = inl ps -> Forall (param_ok ext) ps.
+Proof.
+  unfold mail_params.
+  destruct (mail_body_param ext opts) as [p1|eb] eqn:Eb; [|discriminate].
+  assert (P1 : Forall (param_ok ext) p1) by (eapply mail_body_param_ok; exact Eb).
+  clear Eb.
   destruct opts as [o|]; [|intros H; injection H as <-; exact P1].
   assert (P2 : Forall (param_ok ext)
                  (if has_ext ext (key "SIZE") && negb (mo_size o =? 0)%Z
@@ -550,31 +593,84 @@ Proof.
   assert (P3 : Forall (param_ok ext) (if mo_requiretls o then p2 ++ [bs "REQUIRETLS"] else p2)).
   { destruct (mo_requiretls o); [|exact P2]. cbn [andb] in E3. apply negb_false_iff in E3.
     apply Forall_snoc; [exact P2|].
-    apply (param_ok_flag ext (bs "REQUIRETLS") (bs "REQUIRETLS")); [in_table|exact E3|clean_sp_const]. }
+    apply (param_ok_flag ext (bs "REQUIRETLS") (bs "REQUIRETLS")); [reflexivity|exact E3|clean_sp_const]. }
   set (p3 := if mo_requiretls o then p2 ++ [bs "REQUIRETLS"] else p2) in *. clearbody p3.
   destruct (mo_utf8 o && negb (has_ext ext (key "SMTPUTF8"))) eqn:E4; [discriminate|].
   assert (P4 : Forall (param_ok ext) (if mo_utf8 o then p3 ++ [bs "SMTPUTF8"] else p3)).
   { destruct (mo_utf8 o); [|exact P3]. cbn [andb] in E4. apply negb_false_iff in E4.
     apply Forall_snoc; [exact P3|].
-    apply (param_ok_flag ext (bs "SMTPUTF8") (bs "SMTPUTF8")); [in_table|exact E4|clean_sp_const]. }
+    apply (param_ok_flag ext (bs "SMTPUTF8") (bs "SMTPUTF8")); [reflexivity|exact E4|clean_sp_const]. }
   set (p4 := if mo_utf8 o then p3 ++ [bs "SMTPUTF8"] else p3) in *. clearbody p4.
   apply mail_tail_ok. exact P4.
+Qed.
+
+(* the local errors of the BODY parameter *)
+Definition body_err (e : bytes) : Prop := e = err_8bitmime \/ e = err_binarymime \/ e = err_body.
+
+Lemma mail_body_param_err ext opts e : mail_body_param ext opts = inr e -> body_err e.
+Proof.
+  unfold mail_body_param, body_err. destruct opts as [o|]; [|discriminate].
+  destruct (mo_body o) as [|b0 bt]; [discriminate|].
+  destruct (bytes_eqb (b0 :: bt) (bs "7BIT") || bytes_eqb (b0 :: bt) (bs "8BITMIME")).
+  - destruct (has_ext ext (key "8BITMIME")); [discriminate|]. intros H. injection H as <-. tauto.
+  - destruct (bytes_eqb (b0 :: bt) (bs "BINARYMIME")).
+    + destruct (has_ext ext (key "BINARYMIME")); [discriminate|]. intros H. injection H as <-. tauto.
+    + intros H. injection H as <-. tauto.
+Qed.
+
+(* Body = 7BIT / 8BITMIME without 8BITMIME offered, Body = BINARYMIME without
+   BINARYMIME offered, any other non-empty Body: a local error *)
+Definition body_refused (ext : option extmap) (o : mail_opts) : Prop :=
+  ((mo_body o = bs "7BIT" \/ mo_body o = bs "8BITMIME") /\ has_ext ext (key "8BITMIME") = false)
+  \/ (mo_body o = bs "BINARYMIME" /\ has_ext ext (key "BINARYMIME") = false)
+  \/ (mo_body o <> [] /\ mo_body o <> bs "7BIT" /\ mo_body o <> bs "8BITMIME"
+      /\ mo_body o <> bs "BINARYMIME").
+
+Lemma mail_params_body ext o :
+  body_refused ext o ->
+  exists e, mail_params ext (Some o) = inr e
+            /\ ((mo_body o = bs "7BIT" \/ mo_body o = bs "8BITMIME") -> e = err_8bitmime)
+            /\ (mo_body o = bs "BINARYMIME" -> e = err_binarymime)
+            /\ (mo_body o <> bs "7BIT" -> mo_body o <> bs "8BITMIME" -> mo_body o <> bs "BINARYMIME"
+                -> e = err_body).
+Proof.
+  unfold body_refused, mail_params, mail_body_param.
+  intros [[[E|E] H]|[[E H]|(N0 & N1 & N2 & N3)]].
+  - rewrite E, H. eexists. split; [reflexivity|]. repeat split; try reflexivity; intros; try discriminate; congruence.
+  - rewrite E, H. eexists. split; [reflexivity|]. repeat split; try reflexivity; intros; try discriminate; congruence.
+  - rewrite E, H. eexists. split; [reflexivity|].
+    split; [intros [X|X]; discriminate X|]. split; [reflexivity|]. intros _ _ X. exfalso. apply X. reflexivity.
+  - destruct (mo_body o) as [|b0 bt] eqn:Eb; [congruence|].
+    destruct (bytes_eqb (b0 :: bt) (bs "7BIT")) eqn:E1; [apply bytes_eqb_eq in E1; congruence|].
+    destruct (bytes_eqb (b0 :: bt) (bs "8BITMIME")) eqn:E2; [apply bytes_eqb_eq in E2; congruence|].
+    destruct (bytes_eqb (b0 :: bt) (bs "BINARYMIME")) eqn:E3; [apply bytes_eqb_eq in E3; congruence|].
+    cbn [orb]. eexists. split; [reflexivity|].
+    split; [intros [X|X]; congruence|]. split; [intros X; congruence|]. intros _ _ _. reflexivity.
 Qed.
 
 (* RequireTLS / UTF8 requested but not offered: a local error, not a silent drop *)
 Lemma mail_params_requiretls ext o :
   mo_requiretls o = true -> has_ext ext (key "REQUIRETLS") = false ->
-  mail_params ext (Some o) = inr err_requiretls.
-Proof. intros A B. unfold mail_params. rewrite A, B. reflexivity. Qed.
+  exists e, mail_params ext (Some o) = inr e /\ (body_err e \/ e = err_requiretls).
+Proof.
+  intros A B. unfold mail_params.
+  destruct (mail_body_param ext (Some o)) as [p1|e] eqn:Eb.
+  - rewrite A, B. eexists. split; [reflexivity|tauto].
+  - exists e. split; [reflexivity|]. left. eapply mail_body_param_err; exact Eb.
+Qed.
 
 Lemma mail_params_smtputf8 ext o :
   mo_utf8 o = true -> has_ext ext (key "SMTPUTF8") = false ->
-  exists e, mail_params ext (Some o) = inr e /\ (e = err_requiretls \/ e = err_smtputf8).
+  exists e, mail_params ext (Some o) = inr e
+            /\ (body_err e \/ e = err_requiretls \/ e = err_smtputf8).
 Proof.
-  intros A B. unfold mail_params. rewrite A, B.
-  destruct (mo_requiretls o && negb (has_ext ext (key "REQUIRETLS"))).
-  - exists err_requiretls. tauto.
-  - exists err_smtputf8. cbn [andb negb]. tauto.
+  intros A B. unfold mail_params.
+  destruct (mail_body_param ext (Some o)) as [p1|e] eqn:Eb.
+  - rewrite A, B.
+    destruct (mo_requiretls o && negb (has_ext ext (key "REQUIRETLS"))).
+    + exists err_requiretls. tauto.
+    + exists err_smtputf8. cbn [andb negb]. tauto.
+  - exists e. split; [reflexivity|]. left. eapply mail_body_param_err; exact Eb.
 Qed.
 
 Lemma rcpt_dsn_params_ok ext o ps :
@@ -1295,15 +1391,63 @@ Proof.
 Qed.
 
 Theorem C15_requested_not_offered from o c :
-  (mo_requiretls o = true /\ has_ext (c_ext c) (key "REQUIRETLS") = false)
+  body_refused (c_ext c) o
+  \/ (mo_requiretls o = true /\ has_ext (c_ext c) (key "REQUIRETLS") = false)
   \/ (mo_utf8 o = true /\ has_ext (c_ext c) (key "SMTPUTF8") = false) ->
   exists e, c_mail_step from (Some o) c = (RLocal e, set_rcpts c [])
-            /\ (e = err_requiretls \/ e = err_smtputf8).
+            /\ (body_err e \/ e = err_requiretls \/ e = err_smtputf8).
 Proof.
   intros H. unfold c_mail_step. change (c_ext (set_rcpts c [])) with (c_ext c).
-  destruct H as [[A B]|[A B]].
-  - rewrite (mail_params_requiretls _ _ A B). eexists. split; [reflexivity|tauto].
+  destruct H as [Hb|[[A B]|[A B]]].
+  - destruct (mail_params_body _ _ Hb) as (e & -> & H1 & H2 & H3). exists e. split; [reflexivity|]. left.
+    unfold body_err.
+    destruct Hb as [[E _]|[[E _]|(_ & N1 & N2 & N3)]];
+      [left; exact (H1 E)|right; left; exact (H2 E)|right; right; exact (H3 N1 N2 N3)].
+  - destruct (mail_params_requiretls _ _ A B) as (e & -> & He). exists e. tauto.
   - destruct (mail_params_smtputf8 _ _ A B) as (e & -> & He). exists e. tauto.
+Qed.
+
+(* the BODY refusals one by one: which error each gives *)
+Theorem C15_body_not_offered from o c :
+  body_refused (c_ext c) o ->
+  exists e, c_mail_step from (Some o) c = (RLocal e, set_rcpts c [])
+            /\ ((mo_body o = bs "7BIT" \/ mo_body o = bs "8BITMIME") -> e = err_8bitmime)
+            /\ (mo_body o = bs "BINARYMIME" -> e = err_binarymime)
+            /\ (mo_body o <> bs "7BIT" -> mo_body o <> bs "8BITMIME" -> mo_body o <> bs "BINARYMIME"
+                -> e = err_body).
+Proof.
+  intros Hb. unfold c_mail_step. change (c_ext (set_rcpts c [])) with (c_ext c).
+  destruct (mail_params_body _ _ Hb) as (e & -> & He). exists e. split; [reflexivity|exact He].
+Qed.
+
+(* what param_ok says about BODY: BODY=BINARYMIME only with BINARYMIME offered,
+   every other BODY value only with 8BITMIME offered *)
+Lemma kw_key_in kw t k : kw_key kw t = Some k -> In (kw, k) t.
+Proof.
+  induction t as [|[a e] t IH]; cbn [kw_key]; [discriminate|].
+  destruct (bytes_eqb a kw) eqn:E.
+  - intros H. injection H as <-. apply bytes_eqb_eq in E. subst a. now left.
+  - intros H. right. exact (IH H).
+Qed.
+
+Theorem C15_body_param_licensed ext v :
+  param_ok ext (bs "BODY" ++ "=" :: v) ->
+  if bytes_eqb v (bs "BINARYMIME") then has_ext ext (bs "BINARYMIME") = true
+  else has_ext ext (bs "8BITMIME") = true.
+Proof.
+  intros (_ & kw & k & v' & He & Hx & Hp).
+  assert (Hkw : kw = bs "BODY" /\ v' = v).
+  { unfold ext_for in He. destruct (bytes_eqb kw (bs "BODY")) eqn:Eb.
+    - apply bytes_eqb_eq in Eb. subst kw. split; [reflexivity|].
+      destruct Hp as [[Hp _]|Hp]; cbv in Hp; [discriminate Hp|]. now injection Hp as <-.
+    - exfalso. cbn [andb] in He. apply kw_key_in in He. cbn [kw_table In] in He.
+      decompose [or] He; try contradiction;
+        match goal with X : (_, _) = (kw, k) |- _ => injection X as <- <- end;
+        try (cbv in Eb; discriminate Eb);
+        (destruct Hp as [[Hp _]|Hp]; cbv in Hp; discriminate Hp). }
+  destruct Hkw as [-> ->]. unfold ext_for in He.
+  change (bytes_eqb (bs "BODY") (bs "BODY")) with true in He. cbn [andb] in He.
+  destruct (bytes_eqb v (bs "BINARYMIME")); injection He as <-; exact Hx.
 Qed.
 
 (* Mail = validateLine, hello(), then the step above on the state hello left *)
@@ -1529,7 +1673,7 @@ Lemma c_mail_ready c from e rest :
 Proof.
   intros R H C Hr. rewrite c_mail_unfold by exact C. unfold with_hello.
   rewrite c_hello_done by exact H. unfold c_mail_step.
-  change (c_ext (set_rcpts c [])) with (c_ext c). cbn [mail_params].
+  change (c_ext (set_rcpts c [])) with (c_ext c). cbn [mail_params mail_body_param].
   assert (R' : io_ready (set_rcpts c [])) by exact R.
   rewrite (cmd_err_ready _ _ _ e rest R') by exact Hr.
   eexists. split; [reflexivity|]. split; [apply io_ready_step; exact R'|].
@@ -2707,6 +2851,8 @@ Print Assumptions C15_invalid_argument.
 Print Assumptions C15_only_negotiated_mail.
 Print Assumptions C15_only_negotiated_rcpt.
 Print Assumptions C15_requested_not_offered.
+Print Assumptions C15_body_not_offered.
+Print Assumptions C15_body_param_licensed.
 Print Assumptions C18_callbacks.
 Print Assumptions C18_no_callback.
 Print Assumptions C16_close_twice.
